@@ -31,6 +31,8 @@ def run(ctx):
             tasks.append(dict(fn='channels', kw=dict(design=d, simname=sim, seed=ctx.seed)))
         for k in (0, 1, 3, 6):
             tasks.append(dict(fn='assertions', kw=dict(simname=sim, fail_at=k)))
+        for exc in ('PyrtlError', 'PyrtlInternalError', 'ValueError', 'LookupError', 'AttributeError'):
+            tasks.append(dict(fn='assertions', kw=dict(simname=sim, fail_at=2, exc=exc)))
         for bw in (1, 4, 63, 64, 65, 130):
             tasks.append(dict(fn='illegal_inputs', kw=dict(simname=sim, bw=bw)))
         for k in (1, 2, 5):
